@@ -21,6 +21,13 @@ import random
 HEADER = """package %(pkg)s
 """
 
+C01_HELPERS_TEXT = """func H2(x int) (_ Iter[int]) {
+	Yield(x + 1000)
+	Yield(x + 2000)
+	return
+}
+"""
+
 SIG = "(a, b, n int, g1, g2, g3 bool)"
 CALLARGS = "(a, b, n, g1, g2, g3)"
 
@@ -247,6 +254,90 @@ def tags_of(body):
 # program assembly
 
 
+TWIN_HELPERS = {
+    "H2": """func TH2(x int) *rt.Co[int] {
+	return rt.NewCo(func(yield_ func(int)) {
+		yield_(x + 1000)
+		yield_(x + 2000)
+	})
+}
+""",
+}
+
+
+def twin_body(body):
+    """Yield(e) -> yield_(e), YieldFrom(H(..)) -> rt.YieldFromCo(yield_, TH(..)), return -> return;
+    returns None if the body cannot be twinned (raw text mentioning the co API)"""
+    out = []
+    for s in body:
+        k = s[0]
+        if k == "yield":
+            out.append(("raw", "yield_(%s)" % s[1]))
+        elif k == "yieldfrom":
+            e = s[1]
+            if not e.startswith("H2("):
+                return None
+            out.append(("raw", "rt.YieldFromCo(yield_, T%s)" % e))
+        elif k == "return":
+            out.append(("raw", "return"))
+        elif k == "raw":
+            if "Yield" in s[1] or "Iter[" in s[1] or "MoveNext" in s[1]:
+                return None
+            out.append(s)
+        elif k == "block":
+            b = twin_body(s[1])
+            if b is None:
+                return None
+            out.append(("block", b))
+        elif k == "if":
+            a = twin_body(s[2])
+            b = twin_body(s[3]) if s[3] is not None else None
+            if a is None or (s[3] is not None and b is None):
+                return None
+            out.append(("if", s[1], a, b))
+        elif k in ("switch", "tswitch"):
+            init = s[1]
+            if k == "switch" and init is not None:
+                ib = twin_body([init])
+                if ib is None:
+                    return None
+                init = ib[0]
+            cases = []
+            for v, b in s[3]:
+                tb = twin_body(b)
+                if tb is None:
+                    return None
+                cases.append((v, tb))
+            d = None
+            if s[4] is not None:
+                d = twin_body(s[4])
+                if d is None:
+                    return None
+            out.append((k, init, s[2], cases, d))
+        elif k == "for":
+            parts = []
+            for part in (s[1], s[3]):
+                if part is None:
+                    parts.append(None)
+                    continue
+                pb = twin_body([part])
+                if pb is None:
+                    return None
+                parts.append(pb[0])
+            b = twin_body(s[4])
+            if b is None:
+                return None
+            out.append(("for", parts[0], s[2], parts[1], b))
+        elif k == "range":
+            b = twin_body(s[5])
+            if b is None:
+                return None
+            out.append(("range", s[1], s[2], s[3], s[4], b))
+        else:
+            out.append(s)
+    return out
+
+
 class Program:
     def __init__(self, pid, body, helpers="", named_result=False, tags=None, family="main", ret_type="int", driver=None, note=""):
         self.pid = pid
@@ -262,6 +353,31 @@ class Program:
     @property
     def name(self):
         return "G%s" % self.pid
+
+    def twin_source(self, K, extra_adv=0, nlo=-1, nhi=3):
+        """native reference twin (goroutine coroutine, rt.Co): the same body with Yield(e) printed as
+        yield_(e); None when the program uses things the twin printer does not cover"""
+        if getattr(self, "standalone_full", None) or getattr(self, "standalone", None) or self.driver:
+            return None
+        helpers = ""
+        if self.helpers:
+            if self.helpers.strip() != C01_HELPERS_TEXT.strip():
+                return None
+            helpers = TWIN_HELPERS["H2"]
+        tb = twin_body(self.body)
+        if tb is None:
+            return None
+        name = "T" + self.name
+        lines = ["func %s%s *rt.Co[%s] {" % (name, SIG, self.ret_type), "\treturn rt.NewCo(func(yield_ func(%s)) {" % self.ret_type]
+        lines += p_stmts(tb, 2)
+        lines += ["\t})", "}", ""]
+        if helpers:
+            lines.append(helpers)
+        lines.append(std_driver(name, K, extra_adv, nlo, nhi, self.ret_type))
+        text = "\n".join(lines) + "\n"
+        for h in ("H1", "H2", "H3", "H4", "R1", "R2"):
+            text = text.replace(h + "(", "%s_%s(" % (h, self.pid))
+        return text
 
     def source(self, K, extra_adv=0, nlo=-1, nhi=3):
         if getattr(self, "standalone_full", None):
